@@ -34,6 +34,8 @@ def jobs(tier):
         return out
     for nm in range(3):
         for ni in range(3):
+            if nm + ni > 2:
+                continue  # three and four blocks together: 139 of these jobs were still running after 40 min, not registered
             for dm in (0, 1):
                 out += J(nm, ni, dm=dm)
     for js in [J(1, 0, nl=2, gl=1, na=2), J(0, 1, nl=2, gl=1, na=2), J(1, 0, nl=0, gl=1, na=0), J(1, 1, nl=1, gl=1, na=1), J(1, 0, cmdset=0), J(0, 1, cmdset=0)]:
@@ -44,7 +46,7 @@ PROP = {
     "level_text": "Bounded symbolic model checking of the real config.isMatch / Match.IsMatch / MatchLabel / MatchAnnotation / durationMatch / stateMatches / defaultRuleMatch / defaultMatchStates / Entry.Labels code against an independent reference written from docs/configuration.md, for all nine condition kinds symbolic at once.",
     "level_note": "Regexp matching is an uninterpreted predicate M(pattern, subject) shared by implementation and reference (anchoring is what strictRegex adds: the pattern atom is compared as '^'+cond+'$'); durations range over a listed vocabulary and model.ParseDuration is run natively on them; rule `for` values are valid durations; entries are alerting or recording rules.",
     "runs": [{"pkg": "./internal/config", "harness": ["harness/C09/match.go"], "intmode": True, "jobs": jobs}],
-    "bounds": {"match blocks": "quick <= 1, thorough <= 2", "ignore blocks": "quick <= 1, thorough <= 2", "rule labels": "<= 2 + 1 group label", "annotations": "<= 2",
+    "bounds": {"match blocks": "quick <= 2, thorough <= 2", "ignore blocks": "quick <= 2, thorough <= 2", "match + ignore blocks together": "<= 2", "rule labels": "<= 2 + 1 group label", "annotations": "<= 2",
                "durations": ["30s", "1m", "5m", "1h", "2h"], "operators": ["=", "(none)", ">", "<=", "!=", ">=", "<"], "patterns/subjects": "atoms over 2 anonymous strings each"},
     "assumptions": ["regexp engine = uninterpreted M(pattern, subject)", "rule for/keep_firing_for values parse as durations", "YAML label keys are unique inside one mapping"],
     "outside": ["the regexp engine itself", "HCL decoding of match blocks"],
